@@ -97,9 +97,56 @@ class _Canon(ast.NodeTransformer):
             return getattr(self, "_it_names", {}).get(f.id)
         return None
 
+    # ---- dict(zip(K, V)) with K a view of the keys and V a view of the values of ONE mapping d (d.keys() / d itself, d.values(), each
+    # possibly under map(f, ..) / list(..) / tuple(..))  ->  {f(k): g(v) for k, v in d.items()}: the same pairs in the same order
+    @staticmethod
+    def _dict_view(e):
+        fs = []
+        while True:
+            if isinstance(e, ast.Call) and isinstance(e.func, ast.Name) and not e.keywords and not any(isinstance(a, ast.Starred) for a in e.args):
+                if e.func.id in ("list", "tuple", "iter") and len(e.args) == 1:
+                    e = e.args[0]
+                    continue
+                if e.func.id == "map" and len(e.args) == 2 and isinstance(e.args[0], (ast.Name, ast.Attribute)):
+                    fs.append(e.args[0])
+                    e = e.args[1]
+                    continue
+            break
+        if isinstance(e, ast.Call) and isinstance(e.func, ast.Attribute) and e.func.attr in ("keys", "values") and not e.args and not e.keywords:
+            return e.func.value, e.func.attr, fs
+        return None
+
+    def _dict_zip(self, n):
+        if not (isinstance(n.func, ast.Name) and n.func.id == "dict" and len(n.args) == 1 and not n.keywords and isinstance(n.args[0], ast.Call)
+                and isinstance(n.args[0].func, ast.Name) and n.args[0].func.id == "zip" and len(n.args[0].args) == 2 and not n.args[0].keywords):
+            return None
+        k, v = (self._dict_view(a) for a in n.args[0].args)
+        if k is None or v is None or k[1] != "keys" or v[1] != "values" or ast.dump(k[0]) != ast.dump(v[0]):
+            return None
+        d = k[0]
+        b = d
+        while isinstance(b, ast.Attribute):
+            b = b.value
+        if not isinstance(b, ast.Name):
+            return None
+        import copy as _c
+
+        def wrap(name, fs):
+            e = ast.Name(id=name, ctx=ast.Load())
+            for f in reversed(fs):
+                e = ast.Call(func=_c.deepcopy(f), args=[e], keywords=[])
+            return e
+        tg = ast.Tuple(elts=[ast.Name(id="_zk", ctx=ast.Store()), ast.Name(id="_zv", ctx=ast.Store())], ctx=ast.Store())
+        items = ast.Call(func=ast.Attribute(value=d, attr="items", ctx=ast.Load()), args=[], keywords=[])
+        comp = ast.DictComp(key=wrap("_zk", k[2]), value=wrap("_zv", v[2]), generators=[ast.comprehension(target=tg, iter=items, ifs=[], is_async=0)])
+        return ast.fix_missing_locations(ast.copy_location(comp, n))
+
     # ---- position counters: zip(itertools.count([k]), X) / zip(range(len(X)), X)  ->  enumerate(X[, k])
     def visit_Call(self, n):
         self.generic_visit(n)
+        dz = self._dict_zip(n)
+        if dz is not None:
+            return dz
         if isinstance(n.func, ast.Name) and n.func.id == "zip" and len(n.args) == 2 and not n.keywords and not any(isinstance(a, ast.Starred) for a in n.args):
             c, x = n.args
             new = None
